@@ -6,7 +6,7 @@ import checks.C04 as C04mod
 from checks.C04 import (dense, is_gauss_int, zlist, natlist, mk_fields, qubit, build_gate, spec_particles,
                         wire_of, ref_embed, rand_phase_perm, mat_spec, reach, follow, apply_mutation,
                         fidx, field_mode, rand_fmode, rand_layout, share_patterns, orders_with_repeats, jcopy,
-                        rand_dense_unitary, ref_mode)
+                        rand_dense_unitary, ref_mode, seq as mkseq)
 
 sys.path.insert(0, os.path.join(os.path.dirname(os.path.dirname(os.path.abspath(__file__))), "gen"))
 
@@ -183,7 +183,7 @@ def build_circuit(specs, F, mode):
             cache[key] = build_gate(s_, F)
             gates.append(cache[key])
     if mode.startswith("ctor"):
-        return qib.Circuit(gates), gates
+        return qib.Circuit(mkseq(gates)), gates
     circ = qib.Circuit()
     if mode == "prepend":
         for g in reversed(gates):
@@ -244,7 +244,7 @@ def _oracle_program(ctx, sizes, specs, desc, other_order, sims):
     if [fidx(F, f) for f in circ.fields()] != order:
         ctx.fail("Circuit.fields:order-of-first-appearance", desc, order, [fidx(F, f) for f in circ.fields()])
         return None
-    fl = [F[i] for i in order]
+    fl = mkseq([F[i] for i in order])
     nw = sum(sizes[i] for i in order)
     exact = all(is_gauss_int(g.as_matrix()) for g in gates)
 
@@ -260,7 +260,7 @@ def _oracle_program(ctx, sizes, specs, desc, other_order, sims):
         ctx.fail("as_matrix:not-product-of-embedded-gates-in-application-order", desc, "E(g_n)...E(g_1)", "differs")
     if other_order is not None and other_order != order:
         try:
-            M2 = dense(circ.as_matrix([F[i] for i in other_order]))
+            M2 = dense(circ.as_matrix(mkseq([F[i] for i in other_order])))
             if not same(M2, ref_circuit(sizes, other_order, specs)):
                 ctx.fail("as_matrix:not-product-of-embedded-gates-in-application-order", dict(desc, order=other_order),
                          "E(g_n)...E(g_1)", "differs")
@@ -635,7 +635,7 @@ class Observer:
             for order in seq:
                 kind, R, exact = self.ref.matrix(values, order)
                 try:
-                    out = circ.as_matrix([F[i] for i in order])
+                    out = circ.as_matrix(mkseq([F[i] for i in order]))
                     got = "ok"
                 except AssertionError:
                     out, got = None, "AssertionError"
@@ -1334,6 +1334,32 @@ def run(ctx):
         oracle_program(ctx, sizes, specs, {"kind": "program", "sizes": sizes, "specs": specs})
         ctx.count("program_fixed")
 
+    # ------------------------------------------------------------ gates that differ in ONE coordinate, in one circuit
+    # (all four views; circuits put together in every way; simulator instances shared by eight programs)
+    fam_cfgs = [([3], {}), ([2, 2], {"lat": [0, 0], "intern": True})]
+    if ctx.thorough:
+        fam_cfgs += [([4], {"intern": True}), ([2, 2], {}), ([1, 3], {"num": "np64"}), ([2, 2, 2], {"lat": [0, 1, 0]})]
+    nfam = 0
+    for sizes, fm in fam_cfgs:
+        for fam in sibling_families(rng, sizes):
+            for specs in sibling_programs(rng, sizes, fam):
+                specs = jsonable(specs)
+                desc = {"kind": "program", "sizes": sizes, "specs": specs, "family": fam[0]}
+                if fm:
+                    desc["fmode"] = fm
+                desc["build"] = rng.choice(BUILD_MODES)
+                if nfam % 8 == 0:
+                    sims = Sims()
+                nfam += 1
+                res = oracle_program(ctx, sizes, specs, desc, sims=sims)
+                ctx.count("program_sibling_family")
+                ctx.count("program_siblings_" + fam[0].split(":")[0])
+                ctx.count("program_build_" + desc["build"])
+                ctx.nontriv({"kind": "program-siblings", "family": fam[0], "sizes": sizes, "n": len(specs)})
+                if res is not None:
+                    with field_mode(fm):
+                        program_cases(sizes, specs, res)
+
     # ------------------------------------------------------------ random programs, all views
     size_sets = [[2], [3], [4], [5], [2, 2], [1, 3], [3, 1], [2, 3], [1, 2, 2], [2, 1, 2], [1, 1, 1]]
     nprog = 400 if ctx.thorough else 120
@@ -1372,32 +1398,6 @@ def run(ctx):
         if res is None:
             continue
         program_cases(sizes, specs, res)
-
-    # ------------------------------------------------------------ gates that differ in ONE coordinate, in one circuit
-    # (all four views; circuits put together in every way; simulator instances shared by eight programs)
-    fam_cfgs = [([3], {}), ([2, 2], {"lat": [0, 0], "intern": True})]
-    if ctx.thorough:
-        fam_cfgs += [([4], {"intern": True}), ([2, 2], {}), ([1, 3], {"num": "np64"}), ([2, 2, 2], {"lat": [0, 1, 0]})]
-    nfam = 0
-    for sizes, fm in fam_cfgs:
-        for fam in sibling_families(rng, sizes):
-            for specs in sibling_programs(rng, sizes, fam):
-                specs = jsonable(specs)
-                desc = {"kind": "program", "sizes": sizes, "specs": specs, "family": fam[0]}
-                if fm:
-                    desc["fmode"] = fm
-                desc["build"] = rng.choice(BUILD_MODES)
-                if nfam % 8 == 0:
-                    sims = Sims()
-                nfam += 1
-                res = oracle_program(ctx, sizes, specs, desc, sims=sims)
-                ctx.count("program_sibling_family")
-                ctx.count("program_siblings_" + fam[0].split(":")[0])
-                ctx.count("program_build_" + desc["build"])
-                ctx.nontriv({"kind": "program-siblings", "family": fam[0], "sizes": sizes, "n": len(specs)})
-                if res is not None:
-                    with field_mode(fm):
-                        program_cases(sizes, specs, res)
 
     # ------------------------------------------------------------ registers of 7..12 wires
     big_sets = [[7], [8], [3, 5], [4, 4]]
@@ -1663,5 +1663,11 @@ def replay(ctx, data):
         oracle_ctor(ctx)
     elif k == "array_alias":
         oracle_array_alias(ctx)
+    # the listed known findings of /repo (e.g. the tensor network of a program containing an iSWAP) are not what a
+    # replay of another signature is about
+    known = set(ctx.known_sigs()) if hasattr(ctx, "known_sigs") else {SIG_WRAP, SIG_CTOR, SIG_ARRAY, SIG_PREP, SIG_ROTNAME}
+    keep = [f for f in ctx.failing[before:] if f["sig"] == sig or f["sig"] not in known]
+    del ctx.failing[before:]
+    ctx.failing.extend(keep)
     if len(ctx.failing) > before and not any(f["sig"] == sig for f in ctx.failing):
         ctx.fail(sig, inp, data.get("expected"), "still fails (different symptom)")
